@@ -319,6 +319,41 @@ Theorem C17_generated_AdaptCertificate_clamps : forall (l : limiter) (c c' : Gen
   (l_max l < p_to (a c) -> a c' = restrict (a c) (p_from (a c)) (l_max l)).
 Proof. exact GenAgreeAdaptCert.AdaptCertificate_clamps. Qed.
 
+(* ---- which certificate is cut: GetCertificateBuildParamsInternal GENERATED from flow_base.go on every run ---- *)
+From Verif Require Gen.GenGetParams Proofs.GenAgreeGetParams.
+
+(* the size cut is applied to the certificate that already carries its type, retry count and last sent header, over exactly the
+   blocks (last sent + 1 .. last processed) and their events *)
+Theorem C17_generated_GetParams_rule : forall lastProcessedBlock lastSentCertificateHeader lastSentBlockAndRetryCount bridgesAndClaims cut (ct : N),
+  GenAgreeGetParams.gen_get_params lastProcessedBlock lastSentCertificateHeader lastSentBlockAndRetryCount bridgesAndClaims cut ct =
+  let '(synced, e1) := lastProcessedBlock in
+  if negb (GoNum.err_eqb e1 GoNum.EOK) then (None, GoNum.err_wrap e1) else
+  let '(last, e2) := lastSentCertificateHeader in
+  if negb (GoNum.err_eqb e2 GoNum.EOK) then (None, e2) else
+  let '(prev, rc) := lastSentBlockAndRetryCount last in
+  if synced <=? prev then (None, GoNum.EFail) else
+  let '(bs, cs, e3) := bridgesAndClaims (GoNum.u64_add prev 1) synced in
+  if negb (GoNum.err_eqb e3 GoNum.EOK) then (None, e3) else
+  let '(r, e4) := cut (Some (GenAgreeGetParams.full prev synced bs cs rc last ct)) in
+  if negb (GoNum.err_eqb e4 GoNum.EOK) then (None, GoNum.err_wrap e4) else (r, GoNum.EOK).
+Proof. exact GenAgreeGetParams.GetParams_rule. Qed.
+
+(* with the translated limitCertSize as the cut, what the flows get is the model's limit of the full certificate under the size
+   estimate of the certificate's own type: the limit theorems above are about that value *)
+Theorem C17_generated_GetParams_cuts_the_full_certificate :
+  forall (max : N) (nofuel panic : option GenBuildParams.CertificateBuildParams * GoNum.gerr)
+         (synced prev : N) last (rc : Z) bs cs (ct : N) lastSentBlockAndRetryCount bridgesAndClaims,
+  let c0 := GenAgreeGetParams.full prev synced bs cs rc last ct in
+  lastSentBlockAndRetryCount last = (prev, rc) -> prev < synced ->
+  bridgesAndClaims (GoNum.u64_add prev 1) synced = (bs, cs, GoNum.EOK) ->
+  GenAgreeLimitCert.claims_ok c0 -> wf_span (GenAgreeBuildParams.abs c0) ->
+  exists c', GenAgreeGetParams.gen_get_params (synced, GoNum.EOK) (last, GoNum.EOK) lastSentBlockAndRetryCount bridgesAndClaims
+               (GenLimitCert.limitCertSize max nofuel panic (limit_fuel (GenAgreeBuildParams.abs c0))) ct = (Some c', GoNum.EOK) /\
+             limit_cert_size estimated_size max (GenAgreeBuildParams.abs c0) = LDone (GenAgreeBuildParams.abs c') /\
+             p_type (GenAgreeBuildParams.abs c0) = GenAgreeBuildParams.abs_type ct /\ p_retry (GenAgreeBuildParams.abs c0) = rc /\
+             p_from (GenAgreeBuildParams.abs c0) = GoNum.u64_add prev 1 /\ p_to (GenAgreeBuildParams.abs c0) = synced.
+Proof. exact GenAgreeGetParams.GetParams_cuts_the_full_certificate. Qed.
+
 (* Print Assumptions walks the whole dependency cone each time (0.8 s per call here); the theorems are therefore
    grouped in four tuples, the assumptions of a tuple being the union of the assumptions of its components *)
 Definition C17_all_range := (C17_range_is_filter, C17_range_strict_is_filter, C17_range_cases).
@@ -337,5 +372,6 @@ Print Assumptions C17_generated_gap_empty_iff_touching.
 Definition C17_all_generated_params := (C17_generated_Range_is_model, C17_generated_Range_keeps_elements_whole, C17_generated_EstimatedSize_is_model,
   C17_generated_counts_are_model, C17_generated_nil_receiver, C17_generated_MaxDepositCount_is_last,
   C17_generated_limitCertSize_is_model, C17_generated_limitCertSize_returns_the_limit,
-  C17_generated_AdaptCertificate_is_model, C17_generated_AdaptCertificate_clamps).
+  C17_generated_AdaptCertificate_is_model, C17_generated_AdaptCertificate_clamps,
+  C17_generated_GetParams_rule, C17_generated_GetParams_cuts_the_full_certificate).
 Print Assumptions C17_all_generated_params.
